@@ -93,6 +93,32 @@ class SimLoop(asyncio.BaseEventLoop):
         except BaseException as exc:
             self.call_exception_handler({"message": "Exception in callback %s" % what, "exception": exc})
 
+    # -- worker threads --------------------------------------------------------
+    executor_latency = None  # fn() -> virtual seconds a job spends queued and running in the pool
+
+    def run_in_executor(self, executor, func, *args):
+        """Worker threads are simulated, no real thread is started (their
+        scheduling would not be the simulator's): the job runs in one piece at
+        a later virtual instant -- the loop goes on meanwhile, which is all the
+        code awaiting the job can tell -- and its outcome resolves the future."""
+        fut = self.create_future()
+        d = self.executor_latency() if self.executor_latency is not None else 0.001
+
+        def job():
+            try:
+                res = func(*args)
+            except BaseException as e:  # noqa: B902 -- handed to whoever awaits the job, as a pool does
+                if not fut.done():
+                    fut.set_exception(e)
+            else:
+                if not fut.done():
+                    fut.set_result(res)
+
+        self.at(self.now + d, self._guarded, job, ())
+        if self.sim is not None:
+            self.sim.probe("job_in_worker_thread")
+        return fut
+
     # -- readers (UDP sockets) --------------------------------------------
     def add_reader(self, fd, callback, *args):
         self._readers[fd] = (callback, args)
